@@ -3346,6 +3346,7 @@ void NifFile::SetVertsForShape(NiShape* shape, const std::vector<Vector3>& verts
 
 	if (auto geomData = GetGeometryData(shape)) {
 		if (geomData) {
+			geomData->SetVertices(true);
 			if (verts.size() != geomData->GetNumVertices())
 				geomData->Create(hdr.GetVersion(), &verts, nullptr, nullptr, nullptr);
 			else
